@@ -1,9 +1,9 @@
 (* C08 -- References keep their identity across the wire.
    Property theorems only; proofs live in lib/RefsProofs.v.  Model: lib/Refs.v (two parties, one connection).
-   Third-party gifts are NOT modelled (checked directly on three real Tubs by the harness). *)
+   Third-party introductions: lib/Gifts.v (owners, giver B, recipient C), proofs in lib/GiftsProofs.v. *)
 From Coq Require Import ZArith List Bool.
 Import ListNotations.
-Require Import Verif.lib.PyLite Verif.gen.RefsGen Verif.lib.Refs Verif.lib.RefsProofs.
+Require Import Verif.lib.PyLite Verif.gen.RefsGen Verif.lib.Refs Verif.lib.RefsProofs Verif.lib.Gifts Verif.lib.GiftsProofs.
 Local Open Scope Z_scope.
 
 (* "while the receiving side still holds it, a pass-by-reference object sent any number of times over one connection
@@ -81,3 +81,43 @@ Theorem C08_container_waits_for_all_gifts : forall inputs j,
   aa_fired (aand_complete (aand_new asyncand_init inputs) j) = Nat.eqb j (npending inputs).
 Proof. exact container_waits_for_all_gifts. Qed.
 Print Assumptions C08_container_waits_for_all_gifts.
+
+(* "a proxy handed to a third party yields, after introduction, a proxy to the same original object" -- three-party model
+   lib/Gifts.v, `trun tinit ops` ranges over ALL interleavings of: owners send objects to B, B gives proxies to C (any
+   number of times, proxies of several owners with colliding clids), B's application drops proxies at any point, C drops
+   proxies, their-references / lookups / answers / decgifts delivered (lookups and answers in any order).
+   (1) what B puts on the wire for its proxy k: the proxy's FURL; the ghost `tr_want` is the object the proxy's
+       (connection, clid) was allocated for (C08_clid_names_one_object on the owner<->B connection) *)
+Theorem C08_gift_names_object : forall ops k b,
+  let s := trun tinit ops in
+  find_bp (bprox s) k = Some b ->
+  exists id, ch_bc (fst (tstep s (TGive k))) = ch_bc s ++ [{| tr_id := id; tr_url := bp_url b; tr_want := (fst k, bp_obj b) |}].
+Proof. exact give_names_object. Qed.
+Print Assumptions C08_gift_names_object.
+
+(* (2) whenever the owner processes the lookup of a gift's name -- however late, whatever B's application dropped in the
+       meantime -- the name resolves, and to that very object (the answer is a my-reference for it: C08_send_names_object on
+       the owner<->C connection) *)
+Theorem C08_gift_lookup_finds_original : forall ops i m,
+  let s := trun tinit ops in
+  nth_error (lookups s) i = Some m ->
+  exists rest, answers (fst (tstep s (TLookup i))) = rest ++ [{| an_id := tr_id m; an_got := Some (tr_want m); an_want := tr_want m |}].
+Proof. exact lookup_finds_original. Qed.
+Print Assumptions C08_gift_lookup_finds_original.
+
+(* (3) the introduction completes at C with a proxy for the object B's proxy designates (calls through it reach the
+       original: C08_home_and_calls_reach_original on the owner<->C connection) *)
+Theorem C08_gift_same_object : forall ops i a,
+  let s := trun tinit ops in
+  nth_error (answers s) i = Some a ->
+  snd (tstep s (TAnswer i)) = [EvIntro (an_id a) (Some (an_want a)) (an_want a)] /\
+  In (an_want a) (cprox (fst (tstep s (TAnswer i)))).
+Proof. exact intro_same_object. Qed.
+Print Assumptions C08_gift_same_object.
+
+(* end to end, for every history: every event is an introduction that succeeded with the intended object (none failed,
+   none yielded another object, remote_decgift never met an unknown gift) *)
+Theorem C08_all_introductions_faithful : forall ops,
+  Forall (fun e => exists id w, e = EvIntro id (Some w) w) (trun_events tinit ops).
+Proof. exact all_introductions_faithful. Qed.
+Print Assumptions C08_all_introductions_faithful.
